@@ -343,6 +343,22 @@ def detect_renames(e_old, e_new):
     idk = lambda ts: set(t.text for t in ts if t.kind == 'id')
     gone = idk(e_old) - sn
     fresh = idk(e_new) - so
+    # only LOCAL BINDINGS can be renamed: the identifier must occur in a binding position of the old text
+    # (after let / mut / for / a closure bar, or directly before `:` as a parameter); macro names, paths, fields,
+    # method names and keywords never qualify
+    def bound(ts, names):
+        ok = set()
+        for k, t in enumerate(ts):
+            if t.kind == 'id' and t.text in names:
+                prev = ts[k - 1].text if k > 0 else ''
+                nxt = ts[k + 1].text if k + 1 < len(ts) else ''
+                if nxt == '!' or prev in ('.', '::') or nxt == '::':
+                    continue
+                if prev in ('let', 'mut', 'for', '|') or (nxt == ':' and prev in ('(', ',', '|')):
+                    ok.add(t.text)
+        return ok
+    gone = bound(e_old, gone)
+    fresh = bound(e_new, fresh)
     if not gone or not fresh:
         return {}
     # abstract the candidates and align
